@@ -13,6 +13,10 @@ Ltac bsplit :=
          | H : negb _ = true |- _ => apply negb_true_iff in H
          end.
 
+(* ---- lists ---- *)
+Lemma forallb_map {A B} (g : A -> B) (p : B -> bool) l : forallb p (map g l) = forallb (fun x => p (g x)) l.
+Proof. induction l; simpl; [reflexivity|]. rewrite IHl. reflexivity. Qed.
+
 (* ---- more about broadcasting ----------------------------------------------------------------- *)
 
 Lemma bcast_absorb a b : bcast (bcast a b) b = bcast a b.
@@ -191,3 +195,10 @@ Lemma dtr_dconstdiag c n : dtr (dconstdiag c n) == dconstdiag c n.
 Proof.
   unfold dtr, dconstdiag. repeat split; simpl. intros I i j _ _ _. rewrite Nat.eqb_sym. reflexivity.
 Qed.
+
+Lemma Forall2_shapes l l' : Forall2 BTeq l l' -> map bsh l = map bsh l' /\ map nr l = map nr l' /\ map nc l = map nc l'.
+Proof.
+  induction 1 as [|A A' l l' HA HF (I1 & I2 & I3)]; [auto|]. destruct (BTeq_shape _ _ HA) as (S1 & S2 & S3).
+  simpl. rewrite I1, I2, I3, S1, S2, S3. auto.
+Qed.
+
